@@ -646,7 +646,9 @@ func c16RebuildUnits(u *schema.UnitsDefinition) (out *schema.UnitsDefinition) {
 	if err != nil {
 		return nil
 	}
-	if i, ok := r.Objects()["R"].Properties()["q"].Type().(interface{ Units() *schema.UnitsDefinition }); ok {
+	if i, ok := r.Objects()["R"].Properties()["q"].Type().(interface {
+		Units() *schema.UnitsDefinition
+	}); ok {
 		return i.Units()
 	}
 	return nil
